@@ -18,3 +18,4 @@ import ZckModel.Reader
 import ZckModel.Pred.Read
 import ZckModel.Writer
 import ZckModel.Pred.Write
+import ZckModel.Tools
